@@ -277,6 +277,20 @@ def gen_cases(L: Layouts, own: List[int], imported: List[int], hdr_ci: int, rng:
                       ("is_dynamic", V_int(1)), ("reserved", V_int(ver))]
                 add(ci, sets, tag, hdr=dict(fields=[[n, val_json(v)] for n, v in hf], registry=[ci], minify=minify,
                                             _fields=hf, _ver=ver))
+        # the same message carried by the OTHER shipped header class (TimeCodeMessageHeader, non-zero utc fields):
+        # copy must keep the header class and every header / data byte
+        for rep in range(2):
+            lv = leaves(ci)
+            sets = []
+            for lf in lv:
+                g, _ = leaf_values(lf["ts"], rng)
+                nn = [x for x in g if not (x[0] == "float" and (x[1] >> 52) & 0x7FF == 0x7FF)]
+                sets.append(mkset(lf, rng.choice(nn)))
+            hf = [("msg_type", V_int(tid)), ("msg_count", V_int(7)), ("send_time", V_float(12.5)),
+                  ("src_mod_id", V_int(11)), ("num_data_bytes", V_int(L.size(ci))), ("reserved", V_int(0 if rep else th)),
+                  ("utc_seconds", V_int(rng.randint(1, 2 ** 32 - 1))), ("utc_fraction", V_int(rng.randint(1, 2 ** 32 - 1)))]
+            add(ci, sets, "timecode-header", hdr=dict(fields=[[n, val_json(v)] for n, v in hf], registry=[ci], minify=False,
+                                                      timecode=True, _fields=hf, _ver=0 if rep else th, _timecode=True))
         # unknown message type, NaN time stamp in the header
         hf = [("msg_type", V_int(tid + 5)), ("reserved", V_int(0))]
         add(ci, [], "unknown-type", hdr=dict(fields=[[n, val_json(v)] for n, v in hf], registry=[ci], minify=False, _fields=hf, _ver=0))
@@ -314,6 +328,10 @@ def classify_diff(orig: bytes, got: bytes, lv: List[dict], json: bool) -> str:
         else:
             reasons.add(f"{k}-value")
     return "+".join(sorted(reasons))
+
+
+def type_name(L: Layouts, ci: int, mc: dict) -> str:
+    return mc.get("data_cls")      # data class identity is checked by the bytes; kept for symmetry
 
 
 def oracle(case: dict, res: dict, lv: List[dict], hlv: List[dict], L: Layouts) -> List[Tuple[str, str]]:
@@ -372,6 +390,9 @@ def oracle(case: dict, res: dict, lv: List[dict], hlv: List[dict], L: Layouts) -
         ver = hd["_ver"]
         horig = bytes.fromhex(res["hdr_orig"])
         registered = any(n == "msg_type" and v[1] == L.lay[case["cls"]]["type_id"] for n, v in hd["_fields"])
+        timecode = bool(hd.get("_timecode"))
+        if timecode:
+            registered = False      # Message.from_json decodes with get_header_cls() = the plain class: no JSON claim
         if registered and ver != 0 and ver != th:
             if m["code"] != 11:
                 out.append(("version-mismatch-not-refused", f"{name}: header version {ver} != hash {th} decoded with code {m['code']}"))
@@ -395,8 +416,14 @@ def oracle(case: dict, res: dict, lv: List[dict], hlv: List[dict], L: Layouts) -
         mc = res.get("msg_copy", {})
         if mc.get("code", 1) != 0:
             out.append(("message-copy-raises", f"{name}: Message.copy raised"))
-        elif bytes.fromhex(mc["hdr"]) != horig or bytes.fromhex(mc["data"]) != orig or mc["orig_after"] != horig.hex() + "|" + orig.hex():
-            out.append(("message-copy-shares-storage", f"{name}: Message.copy differs or shares storage"))
+        elif mc.get("hdr_cls") != res.get("hdr_cls") or bytes.fromhex(mc["hdr"]) != horig:
+            out.append(("message-copy-header-differs",
+                        f"{name}: Message.copy of a message with a {res.get('hdr_cls')} ({len(horig)} bytes) has a "
+                        f"{mc.get('hdr_cls')} ({len(mc['hdr']) // 2} bytes): header bytes {horig.hex()} -> {mc['hdr']}"))
+        elif bytes.fromhex(mc["data"]) != orig or mc.get("data_cls") != type_name(L, case["cls"], mc):
+            out.append(("message-copy-data-differs", f"{name}: Message.copy has different data bytes / class"))
+        elif mc["orig_after"] != horig.hex() + "|" + orig.hex():
+            out.append(("message-copy-shares-storage", f"{name}: mutating the Message copy changed the source"))
     return out
 
 
@@ -530,7 +557,7 @@ def run(chk: Check):
         jres = f"({r['json_rt']['code']}, {hexl(r['json_rt'].get('bytes', ''))})"
         coq_cases.append(f"(({leaves_coq(L, lv)}, {L.size(c['cls'])}%nat, {sets}), ({hexl(r['orig'])}, {dres}, {jres}))")
         coq_idx.append(n)
-        if c["hdr"] is not None and "msg_rt" in r:
+        if c["hdr"] is not None and "msg_rt" in r and not c["hdr"].get("_timecode"):
             m = r["msg_rt"]
             mc = f"(mkClass {leaves_coq(L, lv)} {L.size(c['cls'])} {L.lay[c['cls']]['type_hash']})"
             exp = f"({m['code']}, {hexl(m.get('hdr', ''))}, {hexl(m.get('data', ''))})"
